@@ -103,6 +103,16 @@ static PROGRESS_FILE: OnceLock<String> = OnceLock::new();
 
 /// Workload of one operation, drawn from shuttle's data source so that it is
 /// part of the recorded schedule.
+fn mont_input<R: shuttle::rand::Rng>(rng: &mut R) -> BigUint {
+    let mut words: Vec<u64> = (0..24).map(|_| rng.gen::<u64>()).collect();
+    let mut picks: Vec<u64> = (0..24).map(|_| rng.gen::<u64>()).collect();
+    simcore::field::mont_structured(
+        fq(),
+        &mut |n| picks.pop().unwrap_or(0) % n.max(1),
+        &mut || words.pop().unwrap_or(0),
+    )
+}
+
 fn draw_op(prev: Option<&Op>) -> Op {
     let mut rng = shuttle::rand::thread_rng();
     let inp = inputs();
@@ -162,6 +172,15 @@ fn draw_op(prev: Option<&Op>) -> Op {
                 1 => BigUint::from(0u32),
                 _ => f.mul(&root, &odd),
             };
+            // operands whose Montgomery limbs are structured (all-ones / zero limbs and half-limbs)
+            if rng.gen_range(0..10u32) == 0 {
+                let (num, den) = match rng.gen_range(0..3u32) {
+                    0 => (mont_input(&mut rng), BigUint::from(1u32)),
+                    1 => (BigUint::from(1u32), mont_input(&mut rng)),
+                    _ => (mont_input(&mut rng), mont_input(&mut rng)),
+                };
+                return Op::Sqrt { num, den, digits: [0u8; 6] };
+            }
             let num = match rng.gen_range(0..8u32) {
                 0 => BigUint::from(0u32),
                 1 => den.clone(),                      // ratio 1
@@ -180,7 +199,8 @@ fn draw_op(prev: Option<&Op>) -> Op {
         }
         7 | 8 => Op::Encode(rng.gen_range(0..40u64)),
         9 => Op::Elligator(BigUint::from(rng.gen_range(0..1000u64))),
-        10 => Op::FieldSqrt(match rng.gen_range(0..6u32) {
+        10 => Op::FieldSqrt(match rng.gen_range(0..7u32) {
+            6 => mont_input(&mut rng),
             0 => BigUint::from(0u32),
             1 => BigUint::from(1u32),
             2 => rd::zeta().clone(),
@@ -454,31 +474,66 @@ fn pure_preflight() -> Result<(), String> {
     let (tx, rx) = std::sync::mpsc::channel();
     let current = Arc::new(AtomicU64::new(0));
     let cur2 = current.clone();
-    let xs2 = xs.clone();
+    let xs2 = Arc::new(xs.clone());
     std::thread::spawn(move || {
-        let mut out = Vec::new();
-        for (i, x) in xs2.iter().enumerate() {
-            cur2.store(i as u64, Ordering::SeqCst);
-            let v = big_to_fq(x);
-            let leg = match v.legendre() {
-                ark_ff::LegendreSymbol::Zero => 0i8,
-                ark_ff::LegendreSymbol::QuadraticResidue => 1,
-                ark_ff::LegendreSymbol::QuadraticNonResidue => -1,
-            };
-            out.push((leg, v.sqrt().map(|y| fq_to_big(&y))));
-        }
-        let _ = tx.send(out);
+        // inside a (single-task) simulated execution, so that lazily initialised statics of the crate work
+        // here as they do in the scenario, whichever of them these entry points happen to use
+        let slot: Arc<std::sync::Mutex<Vec<(i8, Option<BigUint>)>>> = Arc::new(std::sync::Mutex::new(Vec::new()));
+        let slot2 = slot.clone();
+        let r = std::panic::catch_unwind(std::panic::AssertUnwindSafe(move || {
+            shuttle::check_random(
+                move || {
+                    let mut out = Vec::new();
+                    for (i, x) in xs2.iter().enumerate() {
+                        cur2.store(i as u64, Ordering::SeqCst);
+                        let v = big_to_fq(x);
+                        let leg = match v.legendre() {
+                            ark_ff::LegendreSymbol::Zero => 0i8,
+                            ark_ff::LegendreSymbol::QuadraticResidue => 1,
+                            ark_ff::LegendreSymbol::QuadraticNonResidue => -1,
+                        };
+                        out.push((leg, v.sqrt().map(|y| fq_to_big(&y))));
+                    }
+                    *slot2.lock().unwrap() = out;
+                },
+                1,
+            );
+        }));
+        let msg = r.map_err(|p| {
+            p.downcast_ref::<String>()
+                .cloned()
+                .or_else(|| p.downcast_ref::<&str>().map(|s| s.to_string()))
+                .unwrap_or_else(|| "panic".into())
+        });
+        let out = std::mem::take(&mut *slot.lock().unwrap());
+        let _ = tx.send(msg.map(|_| out));
     });
     let res = match rx.recv_timeout(std::time::Duration::from_secs(60)) {
-        Ok(r) => r,
-        Err(_) => {
+        Ok(Ok(r)) => r,
+        Ok(Err(msg)) => {
+            let i = current.load(Ordering::SeqCst) as usize;
+            return Err(format!(
+                "INVARIANT panic: Field::legendre / Field::sqrt panicked on x = {:x}: {}",
+                xs[i.min(xs.len() - 1)],
+                msg.lines().next().unwrap_or("")
+            ));
+        }
+        Err(std::sync::mpsc::RecvTimeoutError::Timeout) => {
             let i = current.load(Ordering::SeqCst) as usize;
             return Err(format!(
                 "INVARIANT no_termination: Field::legendre / Field::sqrt did not return within 60 s on x = {:x}",
                 xs[i.min(xs.len() - 1)]
             ));
         }
+        Err(std::sync::mpsc::RecvTimeoutError::Disconnected) => {
+            eprintln!("HARNESS-ERROR: the preflight worker vanished");
+            std::process::exit(2);
+        }
     };
+    if res.len() != xs.len() {
+        eprintln!("HARNESS-ERROR: the preflight produced {} of {} results", res.len(), xs.len());
+        std::process::exit(2);
+    }
     for (x, (leg, root)) in xs.iter().zip(res.iter()) {
         let want: i8 = if *x == BigUint::from(0u32) { 0 } else if f.is_square(x) { 1 } else { -1 };
         if *leg != want {
